@@ -62,7 +62,9 @@ def element(node: AbbreviationNode, index: int, items: list, state: HTMLWalkStat
                     push_tokens(node.value, state)
                     if inner_format:
                         out.level -= 1
-                        out.push_newline(out.level)
+                        if not node.children:
+                            # Children break lines on their own, at their own level
+                            out.push_newline(out.level)
 
                 _next(node.children, walk_next)
 
